@@ -196,7 +196,9 @@ def classifyShape (a : PaintArgs) (shape : List Char) (pts : List Point) (tpath 
   else if shape = ['m', 'l', 'l', 'l', 'h'] ∨ shape = ['m', 'l', 'l', 'l', 'l'] then
     match pts with
     | [p0, p1, p2, p3, p4] =>
-      if p0 = p4 ∧ squareCoords p0 p1 p2 p3 = true then [mkRect a (p0.1, p0.2, p2.1, p2.2) tpath]
+      if p0 = p4 ∧ squareCoords p0 p1 p2 p3 = true then
+        -- `rect = LTRect(.., (*pts[0], *pts[2]), ..); rect.pts = pts[:4]` (bbox stays the one of the corners)
+        [{ mkRect a (p0.1, p0.2, p2.1, p2.2) tpath with pts := [p0, p1, p2, p3] }]
       else [mkCurve a pts tpath]
     | _ => []                                   -- unreachable: five letters, five points
   else [mkCurve a pts tpath]
@@ -330,13 +332,15 @@ def doSetColourN (st : IState) (stroking : Bool) : Except Err IState :=
       match safeFloat x with
       | some r => .ok (setColour st stroking [r])
       | none => .ok st
-  else if n = 3 ∨ n = 4 then
+  else if n = 0 then .ok st              -- no components: warning only
+  else
+    -- n = 3 (`safe_rgb`), n = 4 (`safe_cmyk`) and, since the fix, any other n: pop n operands, all of
+    -- them must be there and convert, then the colour is the tuple of the n floats
     let (vals, st) := pop n st
-    if vals.length ≠ n then .ok st       -- `safe_rgb(*values) if len(values) == 3 else None`: warning only
+    if vals.length ≠ n then .ok st
     else match allNums vals with
       | some xs => .ok (setColour st stroking xs)
       | none => .ok st
-  else .ok st
 
 /-- The body of `do_<k>` applied to exactly `nargs` operands. -/
 def call (k : OpK) (args : List Operand) (st : IState) : Except Err IState :=
